@@ -45,6 +45,7 @@ BuildSeq   == << "42597", "0", "-5", "007", "9223372036854775807", "abc", "1.5",
 KeySeq     == << <<>>, <<"">>, <<H3>>, <<HU>>, <<"abcdef">>, <<"zz">>, <<"abc">> >>
 PcSeq      == << <<>>, <<H3>>, <<HU>> >>
 BcSeq      == << H1, HU >>
+CcSeq      == << H2, HU >>
 PathSeq    == << <<>>, <<"tpr/wow_classic">>, <<"">>, <<"tpr/wow ">>, <<"\t">>, <<" tpr/lead">>, <<"a|b">>, <<"tpr/é">> >>
 HostSeq    == << "cdn.example.com", "a.example b.example", "h|i" >>
 CfgPathSeq == << "tpr/wow", "tpr/cfg ", "p|q" >>
@@ -54,14 +55,14 @@ ProductSeq == << "wow", "w|x" >>
 Slots ==
   {<<"version", v>> : v \in RangeOf(VersionSeq)} \cup {<<"build", v>> : v \in RangeOf(BuildSeq)} \cup
   {<<"keyring", v>> : v \in RangeOf(KeySeq)} \cup {<<"pc", v>> : v \in RangeOf(PcSeq)} \cup
-  {<<"bc", v>> : v \in RangeOf(BcSeq)} \cup {<<"cdn_path", v>> : v \in RangeOf(PathSeq)} \cup
+  {<<"bc", v>> : v \in RangeOf(BcSeq)} \cup {<<"cc", v>> : v \in RangeOf(CcSeq)} \cup {<<"cdn_path", v>> : v \in RangeOf(PathSeq)} \cup
   {<<"hosts", v>> : v \in RangeOf(HostSeq)} \cup {<<"path", v>> : v \in RangeOf(CfgPathSeq)} \cup
   {<<"product", v>> : v \in RangeOf(ProductSeq)}
 
 SetB(b, s) ==
   CASE s[1] = "version" -> [b EXCEPT !.version = s[2]] [] s[1] = "build" -> [b EXCEPT !.build = s[2]]
     [] s[1] = "keyring" -> [b EXCEPT !.keyring = s[2]] [] s[1] = "pc" -> [b EXCEPT !.pc = s[2]]
-    [] s[1] = "bc" -> [b EXCEPT !.bc = s[2]] [] s[1] = "cdn_path" -> [b EXCEPT !.cdn_path = s[2]]
+    [] s[1] = "bc" -> [b EXCEPT !.bc = s[2]] [] s[1] = "cc" -> [b EXCEPT !.cc = s[2]] [] s[1] = "cdn_path" -> [b EXCEPT !.cdn_path = s[2]]
     [] s[1] = "product" -> [b EXCEPT !.product = s[2]] [] OTHER -> b
 SetC(c, s) == CASE s[1] = "hosts" -> [c EXCEPT !.hosts = s[2]] [] s[1] = "path" -> [c EXCEPT !.path = s[2]] [] OTHER -> c
 
@@ -76,7 +77,7 @@ Prog(fam, c, d, steps) == [fam |-> fam, cfg |-> c, db |-> d, steps |-> steps]
 Touch(fs, names) == fs \cap names # {}
 QueriesFor(p, fs) ==
   IF Tier # "quick" THEN AllQueries(p) ELSE
-    (IF Touch(fs, {"version", "build", "keyring", "pc", "bc", "product"})
+    (IF Touch(fs, {"version", "build", "keyring", "pc", "bc", "cc", "product"})
      THEN << Q("v1", p, "versions"), Q("v2", p, "versions"), Q("http", p, "versions"), Q("v2", p, "bgdl") >>
      ELSE << Q("v1", p, "versions") >>) \o
     (IF Touch(fs, {"cdn_path", "hosts", "path", "product"})
@@ -110,9 +111,9 @@ SampleProgram(k) ==
       qn == IF adm THEN <<"wow">> ELSE ProductSeq
       h1 == Hk(k)                 h2 == h1 \div Len(qv)      h3 == h2 \div Len(qp)      h4 == h3 \div Len(qb)
       h5 == h4 \div Len(qk)       h6 == h5 \div Len(PcSeq)   h7 == h6 \div Len(qh)      h8 == h7 \div Len(qc)
-      h9 == h8 \div Len(BcSeq)
+      h9 == h8 \div Len(BcSeq)    h10 == h9 \div Len(CcSeq)
       b == [Base EXCEPT !.version = At(qv, h1), !.cdn_path = At(qp, h2), !.build = At(qb, h3), !.keyring = At(qk, h4),
-                        !.pc = At(PcSeq, h5), !.bc = At(BcSeq, h8), !.product = At(qn, h9)]
+                        !.pc = At(PcSeq, h5), !.bc = At(BcSeq, h8), !.cc = At(CcSeq, h9), !.product = At(qn, h10)]
       c == [hosts |-> At(qh, h6), path |-> At(qc, h7)]
   IN Prog("sample", c, <<b>>, IF Tier = "quick" THEN QueriesFor(b.product, {"version", "cdn_path"}) ELSE AllQueries(b.product))
 SamplePrograms == {SampleProgram(k) : k \in 1..NSample}
